@@ -35,6 +35,9 @@ pub struct Move {
 pub struct Plan {
     pub seed: u64,
     pub moves: Vec<Move>,
+    /// bit 0: node A runs in lite (SPV) mode, bit 1: node B does
+    #[serde(default)]
+    pub lite: u8,
 }
 
 pub const KINDS: &[&str] = &[
@@ -56,7 +59,8 @@ fn gen(seed: u64, tier: Tier) -> Plan {
             Move { k, a: rng.below(8), b: rng.below(8) }
         })
         .collect();
-    Plan { seed, moves }
+    let lite = if rng.chance(1, 3) { 1 + rng.below(3) as u8 } else { 0 };
+    Plan { seed, moves, lite }
 }
 
 /// per honest node: challenges it sent per connection (peer index), outstanding flag
@@ -83,7 +87,7 @@ impl Scenario for C17 {
     fn meta(&self) -> Meta {
         Meta {
             level: "exploration",
-            rule: "run = honest nodes A (dials out through its static-peer path) and B (accepts connections), real RoutingThread/Network/Peer handshake code on both, attacker M in the middle of every connection plus up to 3 extra connections of its own; 2..8/12 attacker moves from {forward, drop, replay an observed message on the same or another connection, reflect an observed challenge back as a HandshakeChallenge, redirect a response to another connection, respond with own key, respond unsolicited, wrong-version response, send own challenge, open connection, close connection, let time pass so that A redials its static peer on the same peer index (challenges of the closed connection are void)}; after every move the network runs to quiescence. Monitor (after every delivery to an honest node): a peer on connection c becomes Connected under K only if the delivered message is a response whose signature verifies under K over a challenge this node itself sent on c and that was still outstanding; a challenge authenticates at most once; K is never the node's own key; an authenticated (c,K) stays Connected with K and address_to_peers[K]==c while messages arrive on other connections. A faithful relay of the honest peer's answer is not flagged. distinct_nontrivial = distinct move sequences during which >= 1 challenge was outstanding when M acted.",
+            rule: "run = honest nodes A (dials out through its static-peer path) and B (accepts connections), real RoutingThread/Network/Peer handshake code on both, attacker M in the middle of every connection plus up to 3 extra connections of its own; 2..8/12 attacker moves from {forward, drop, replay an observed message on the same or another connection, reflect an observed challenge back as a HandshakeChallenge, redirect a response to another connection, respond with own key, respond unsolicited, wrong-version response, send own challenge, open connection, close connection, let time pass so that A redials its static peer on the same peer index (challenges of the closed connection are void)}; after every move the network runs to quiescence. Monitor (after every delivery to an honest node): a peer on connection c becomes Connected under K only if the delivered message is a response whose signature verifies under K over a challenge this node itself sent on c and that was still outstanding; a challenge authenticates at most once; K is never the node's own key; a response stating a core version with another major/minor number never yields a connected peer (a third of the runs put A, B or both in lite/SPV mode); an authenticated (c,K) stays Connected with K and address_to_peers[K]==c while messages arrive on other connections. A faithful relay of the honest peer's answer is not flagged. distinct_nontrivial = distinct move sequences during which >= 1 challenge was outstanding when M acted.",
             real: &["RoutingThread::process_network_event", "Network::handle_new_peer/handle_handshake_challenge/handle_handshake_response", "Peer::initiate_handshake/handle_handshake_challenge/handle_handshake_response", "PeerCollection", "Message/Handshake codecs", "rate limiters"],
             stubs: &["SimNet with an attacker-controlled relay", "SimClock", "event-granularity scheduler"],
             assumptions: &["attacker cannot forge signatures (it only signs with its own key)", "sign/verify primitives trusted by the monitor"],
@@ -108,7 +112,9 @@ impl Scenario for C17 {
         let opts = NodeOpts::default();
         let mut cfg_a = SimConfig::new(1000, 1000);
         cfg_a.peers = vec![static_peer("m")];
-        let cfg_b = SimConfig::new(1000, 1000);
+        cfg_a.spv = plan.lite & 1 != 0;
+        let mut cfg_b = SimConfig::new(1000, 1000);
+        cfg_b.spv = plan.lite & 2 != 0;
         let a = sim.add_node(&ka, &cfg_a, &opts);
         let b = sim.add_node(&kb, &cfg_b, &opts);
         sim.init_node(a, false);
@@ -177,8 +183,13 @@ impl Scenario for C17 {
                     };
                     // is the delivered message itself a valid answer to an outstanding challenge of this connection?
                     let mut valid_response: Option<(u64, [u8; 33])> = None;
+                    let mut incompatible = false;
                     if let Some((pi, buf)) = &incoming {
                         if let Ok(Message::HandshakeResponse(resp)) = Message::deserialize(buf.clone()) {
+                            // an answer that states a core version with another major / minor number
+                            // authenticates nobody, whoever signed it
+                            let mine = block_on(sim.nodes[n].wallet_lock.read()).core_version;
+                            incompatible = resp.core_version.major != mine.major || resp.core_version.minor != mine.minor;
                             for s in mon.sent.iter_mut() {
                                 if s.0 == (n, *pi) && !s.2 && verify(&s.1, &resp.signature, &resp.public_key) {
                                     s.2 = true;
@@ -212,6 +223,13 @@ impl Scenario for C17 {
                             };
                             if key == own_key[n] {
                                 r.violate("C17|authenticated-as-itself", format!("node{} marked connection {} as connected under its own public key (reflected challenge)", n, idx));
+                                continue;
+                            }
+                            if incompatible && incoming.as_ref().map(|x| x.0) == Some(*idx) {
+                                r.violate(
+                                    "C17|connected-despite-incompatible-version",
+                                    format!("node{} ({}) marked connection {} as connected on a response that states an incompatible core version", n, if (plan.lite >> n) & 1 != 0 { "lite" } else { "full" }, idx),
+                                );
                                 continue;
                             }
                             // provenance
